@@ -823,3 +823,64 @@ prop(dict(
                                  "a payload cut inside a third or later aggregation unit may be refused or yield the complete units before the cut",
                                  "DON values are not judged, only the placement of the DONL/DOND fields"],
 ))
+
+
+# ---------------------------------------------------------------- C13
+def _obu_stream(obus):
+    out = []
+    for o in obus:
+        hdr = [o["type"] << 3 | (4 if o["ext"] else 0) | (2 if o["hassize"] else 0) | o["r1"]]
+        if o["ext"]:
+            hdr.append(o["tid"] << 5 | o["sid"] << 3 | o["r3"])
+        out += hdr
+        if o["hassize"]:
+            n = len(o["payload"])
+            while True:
+                b = n & 0x7f
+                n >>= 7
+                if n:
+                    out.append(b | 0x80)
+                else:
+                    out.append(b)
+                    break
+        out += o["payload"]
+    return out
+
+
+def rand_c13(seed, tier, cases=None):
+    rng = random.Random(seed * 7919 + 13)
+    out = []
+    for _ in range(400 if tier == "quick" else 10000):
+        mtu = rng.choice([2, 3, 4, 5, 7, 16, 64, 129, 130, 131, 200, 1200, rng.randint(2, 400)])
+        n = rng.randint(1, 8 if tier == "thorough" else 5)
+        obus = []
+        for i in range(n):
+            ext = rng.random() < 0.5
+            ln = rng.choice([0, 1, 2, mtu - 2, mtu - 1, mtu, 2 * (mtu - 1) - 1, 2 * (mtu - 1), 126, 127, 128, rng.randint(0, 3 * mtu)])
+            ln = max(0, min(ln, 1500))
+            obus.append(dict(type=rng.choice([1, 2, 3, 4, 5, 6, 7, 8, 15, rng.randint(0, 15)]), ext=ext, tid=rng.randint(0, 2) if ext else 0, sid=rng.randint(0, 1) if ext else 0,
+                             r3=rng.choice([0, 0, 5]) if ext else 0, r1=rng.choice([0, 0, 1]), hassize=True, payload=[rng.randint(0, 255) for _ in range(ln)]))
+        if rng.random() < 0.3:
+            obus[-1]["hassize"] = False
+        out.append(dict(fam="C13", kind="payload", valid=True, mtu=mtu, obus=obus, stream=_obu_stream(obus), **{"class": "rand_obus"}))
+    return out
+
+
+prop(dict(
+    id="C13", fam="C13",
+    mc=[("AV1MC.tla", "AV1MC.cfg", {"thorough": {"Sizes": "{0, 1, 2, 4, 5, 6, 7, 8, 13, 20}"}})],
+    gen=[("AV1Gen.tla", "AV1Gen.cfg", {"thorough": {"Stride": "5", "HdrStride": "1"}})],
+    rand=rand_c13,
+    trace=("AV1Trace.tla", "AV1Trace.cfg"),
+    shards={"quick": 8, "thorough": 14},
+    workers=16,
+    nontrivial=lambda c: c["kind"] != "payload" or len(c["stream"]) > 2,
+    mandatory=["one_obu", "one_obu_fragmented", "one_obu_fragmented_nosize", "one_obu_not_sent", "two_obus", "two_obus_layers_differ", "three_obus", "three_obus_layers_aba",
+               "three_obus_layers_differ", "leb128", "obu_header", "rand_obus"],
+    rule="TLC enumerates OBU lists: one OBU of twelve types x four extension-header variants x sizes {0,1,2,MTU-3..MTU+1,2MTU-3..2MTU,126..129} x size field present/omitted; two OBUs "
+         "(strided product of types, extension variants, sizes); three OBUs with all 64 orders of extension ids (none,(0,0),(1,0),(0,1)) and, with a leading temporal delimiter and a trailing "
+         "tile list, five; x MTU {2,3,4,5,8,16,130,200}; every payloader output is stitched by the reference and fed to the real AV1Depacketizer and to AV1Packet + frame assembler; LEB128 digit "
+         "sequences around every 7-bit boundary up to 2^32-1; OBU header byte pairs (quick: stride 53 + boundaries, thorough: all 65536); seeded random lists of up to 8 OBUs are added",
+    assumptions=COMMON_ASSUME + ["N and the reserved aggregation-header bits are not judged (the statement does not mention them)",
+                                 "the deprecated path uses a fresh AV1Packet per RTP payload (AV1Packet caches its parsed elements)"],
+))
